@@ -10,7 +10,7 @@ def run(ctx):
     vlib.mc(ctx, "WatchLog", "MC_WatchLog_quick.cfg", timeout=1200)
     configs = [watchlib.RING_CONFIGS[i] for i in ((2,) if quick else (1, 2, 4))]
     groups = watchlib.gen_groups(ctx, configs, 40 if quick else 400, 40 if quick else 60)
-    files = watchlib.drive(ctx, groups, extras=False, name="c14w")
+    files = watchlib.drive(ctx, groups, extras=False, name="c14w", hook_prop="C14")
     total, rej = watchlib.judge(ctx, groups, files)
     ctx.cov["traces_validated_against_impl"] += total
     wrecs = [r for f in files for r in vlib.read_ndjson(f)]
